@@ -51,7 +51,7 @@ pub fn strategy(_s: &'static dyn Proto) -> BoxedStrategy<Case> {
 }
 
 struct Pending {
-    kind: &'static str,
+    kind: String,
     state: Obj,
     /// the genuine finalization and the client's session key, if one exists
     genuine: Option<(Vec<u8>, Vec<u8>)>,
@@ -143,26 +143,45 @@ pub fn check(s: &'static dyn Proto, c: &Case, st: &mut Stats, _k: &KnownFindings
 
     let pendings = vec![
         Pending {
-            kind: "real-accepting",
+            kind: "real-accepting".into(),
             state: s.clone_obj(&l1.server_state),
             genuine: Some((f1.clone(), c1.session_key.clone())),
         },
         Pending {
-            kind: "fake-record",
+            kind: "fake-record".into(),
             state: s.clone_obj(&l2.server_state),
             genuine: None,
         },
         Pending {
-            kind: "real-wrong-password",
+            kind: "real-wrong-password".into(),
             state: s.clone_obj(&l3.server_state),
             genuine: None,
         },
         Pending {
-            kind: "answered-twice(a)",
+            kind: "answered-twice(a)".into(),
             state: sst6a,
             genuine: Some((f6a.clone(), fa.session_key.clone())),
         },
     ];
+
+    // a pending state that was stored between start and finish (native bytes, bincode, JSON) is a
+    // pending state too; those get the named candidate classes and the bit flips (not the 255*Nh
+    // substitutions).  A state that does not survive the codec at all is C13's subject, not C03's.
+    let mut pendings = pendings;
+    let n_direct = pendings.len();
+    for i in 0..n_direct {
+        for cd in CODECS {
+            let img = s.ser(cd, &pendings[i].state);
+            if let Ok(o) = s.de(cd, Ty::ServerLogin, &img) {
+                let p = Pending {
+                    kind: format!("{} restored through {cd:?}", pendings[i].kind),
+                    state: o,
+                    genuine: pendings[i].genuine.clone(),
+                };
+                pendings.push(p);
+            }
+        }
+    }
 
     // ---- candidates
     let nh = m.nh;
@@ -235,8 +254,11 @@ pub fn check(s: &'static dyn Proto, c: &Case, st: &mut Stats, _k: &KnownFindings
 
     let case_hash = hash_of(&(m.name, c));
     let mut n_nontrivial = 0u64;
-    for p in &pendings {
+    for (pi, p) in pendings.iter().enumerate() {
         for (name, cand) in &cands {
+            if pi >= n_direct && (name.contains(":subst@") || name.contains(":pairflip@")) {
+                continue;
+            }
             let is_genuine = p.genuine.as_ref().map(|(f, _)| f == cand).unwrap_or(false);
             let fin = match s.de(Codec::Native, Ty::CredFin, cand) {
                 Ok(f) => f,
@@ -247,7 +269,10 @@ pub fn check(s: &'static dyn Proto, c: &Case, st: &mut Stats, _k: &KnownFindings
             if is_genuine {
                 let (_, key) = p.genuine.as_ref().unwrap();
                 match r {
+                    Ok(k) if pi >= n_direct && &k != key => st.label("restored state releases another key for the genuine finalization (C13's subject)"),
                     Ok(k) => ensure_eq!(&k, key, "state {}: genuine finalization gave a different key", p.kind),
+                    // whether a stored-and-restored state still works is C13's subject
+                    Err(_) if pi >= n_direct => st.label("restored state refuses the genuine finalization (C13's subject)"),
                     Err(e) => return Err(Fail::new(format!("state {}: genuine finalization rejected: {e:?}", p.kind))),
                 }
             } else {
@@ -275,7 +300,7 @@ pub fn check(s: &'static dyn Proto, c: &Case, st: &mut Stats, _k: &KnownFindings
     st.nontrivial_bulk(case_hash, n_nontrivial);
     st.sample(|| {
         json!({"suite": m.name, "pw": c.pw.describe(), "cred": c.cred.describe(),
-               "states": pendings.iter().map(|p| p.kind).collect::<Vec<_>>(),
+               "states": pendings.iter().map(|p| p.kind.clone()).collect::<Vec<_>>(),
                "candidates_per_state": cands.len(),
                "example_candidates": cands.iter().take(2).map(|(n, v)| json!({"name": n, "hex": hex::encode(v)})).collect::<Vec<_>>()})
     });
@@ -291,7 +316,7 @@ pub const BUDGET: Budget = Budget {
 pub fn run(cfg: &RunCfg) -> (Outcome, EvidenceExtra) {
     let out = run_property(cfg, "C03", crate::suites::suites20(), BUDGET, strategy, check);
     let ev = EvidenceExtra {
-        rule: "per generated case: 4 pending server states (real record + accepting client; fake record; real record + wrong-password client; one of two answers to the same request) x candidates {all 8*Nh single-bit flips and all 255*Nh single-byte substitutions of two genuine finalizations, multi-byte alterations of them whose differences cancel under XOR or preserve the byte sum or the multiset of bytes (the same bit flipped in every pair of bytes, adjacent transpositions, +1/-1 pairs, 0f/f0/ff triples, rotation, reversal), finalizations of another session of the same user / of another user+password / of the other answer to the same request, all-zero, all-0xFF, publicly computable constants (HMAC and hash of all-zero / all-0xFF / empty strings), 64 random strings}, each delivered to a clone of the state. evaluation = one ServerLogin::finish call. non-trivial = candidate != the state's genuine finalization; candidates deduplicated per case, cases distinct by hash of (suite, case)".into(),
+        rule: "per generated case: 4 pending server states (real record + accepting client; fake record; real record + wrong-password client; one of two answers to the same request), each also after being stored and restored through native bytes, bincode and JSON (these 12 with the named classes and bit flips only), x candidates {all 8*Nh single-bit flips and all 255*Nh single-byte substitutions of two genuine finalizations, multi-byte alterations of them whose differences cancel under XOR or preserve the byte sum or the multiset of bytes (the same bit flipped in every pair of bytes, adjacent transpositions, +1/-1 pairs, 0f/f0/ff triples, rotation, reversal), finalizations of another session of the same user / of another user+password / of the other answer to the same request, all-zero, all-0xFF, publicly computable constants (HMAC and hash of all-zero / all-0xFF / empty strings), 64 random strings}, each delivered to a clone of the state. evaluation = one ServerLogin::finish call. non-trivial = candidate != the state's genuine finalization; candidates deduplicated per case, cases distinct by hash of (suite, case)".into(),
         assumptions: vec!["HMAC forgeries that were not generated are out of reach".into()],
         exhaustive: Some(false),
         extra: [("exhaustive_part".to_string(), json!("single-bit and single-byte substitutions of the genuine finalization are enumerated exhaustively per case"))].into_iter().collect(),
